@@ -302,7 +302,10 @@ type seqWorld struct {
 	volIds  []uint32
 	maxW    uint64 // largest key in use in any volume (what a heartbeat reports)
 	issuers int32
-	inflightAtRestart int64
+	// memory sequencers share nothing: only the instance holding the leader token
+	// serves (as only the leading master assigns); the controller moves the token
+	leaderMu sync.RWMutex
+	leader   int
 }
 
 func (w *seqWorld) bumpMax(k uint64) {
@@ -385,7 +388,14 @@ func (w *seqWorld) worker(gi int, rng *rand.Rand, wg *sync.WaitGroup) {
 	}
 	for i := 0; i < w.s.Ops; i++ {
 		slot := w.slots[rng.Intn(len(w.slots))]
+		if w.s.Type == "memory" {
+			w.leaderMu.RLock()
+			slot = w.slots[w.leader]
+		}
 		x := rng.Intn(100)
+		if x >= 90 && w.s.Type == "memory" {
+			w.leaderMu.RUnlock()
+		}
 		switch {
 		case x < 72:
 			slot.mu.RLock()
@@ -395,11 +405,17 @@ func (w *seqWorld) worker(gi int, rng *rand.Rand, wg *sync.WaitGroup) {
 			g.mu.Unlock()
 			vid := seen[rng.Intn(len(seen))]
 			count := counts[rng.Intn(len(counts))]
+			if w.s.Type == "etcd" && count > 500 && rng.Intn(4) != 0 {
+				count = counts[rng.Intn(5)] // every count > 500 costs an etcd round trip and an fsync
+			}
 			a := &asg{Issuer: g.is, Vol: vid, Count: count}
 			a.CallT = tick()
 			a.Start = g.seq.NextFileId(count)
 			a.RetT = tick()
 			slot.mu.RUnlock()
+			if w.s.Type == "memory" {
+				w.leaderMu.RUnlock()
+			}
 			if a.Start == 0 && w.s.Type == "etcd" {
 				w.r.Count("seq.etcd.error_returns", 1) // NextFileId answers 0 when etcd failed
 				continue
@@ -430,11 +446,13 @@ func (w *seqWorld) worker(gi int, rng *rand.Rand, wg *sync.WaitGroup) {
 			slot.mu.RLock()
 			w.setMax(slot.cur)
 			slot.mu.RUnlock()
+			if w.s.Type == "memory" {
+				w.leaderMu.RUnlock()
+			}
 		default:
 			flush(1 + rng.Intn(3))
 		}
 	}
-	atomic.AddInt64(&w.inflightAtRestart, 0)
 	flush(len(pending))
 }
 
@@ -491,7 +509,19 @@ func runSeqSchedule(r *lib.Run, s seqSched) {
 		case <-done:
 		case <-time.After(time.Duration(200+rng.Intn(1500)) * time.Microsecond):
 		}
-		if restarts < s.Restarts && (joins >= s.Joins || rng.Intn(2) == 0) {
+		if restarts < s.Restarts && s.Type == "memory" && len(w.slots) > 1 && rng.Intn(2) == 0 {
+			// leader change: another instance (with whatever counter it had) takes over;
+			// a heartbeat reaches it before it serves its first request
+			w.leaderMu.Lock()
+			w.leader = (w.leader + 1 + rng.Intn(len(w.slots)-1)) % len(w.slots)
+			nl := w.slots[w.leader]
+			nl.mu.RLock()
+			w.setMax(nl.cur)
+			nl.mu.RUnlock()
+			w.leaderMu.Unlock()
+			restarts++
+			r.Count("seq.memory.leader_moves", 1)
+		} else if restarts < s.Restarts && (joins >= s.Joins || rng.Intn(2) == 0) {
 			slot := w.slots[rng.Intn(len(w.slots))]
 			slot.mu.Lock()
 			slot.cur = w.newGen(slot)
@@ -646,6 +676,7 @@ type mSched struct {
 	PreVols  bool   `json:"preexisting_volumes"`
 	PreMax   uint64 `json:"pre_max"`
 	RngSeed  int64  `json:"rng_seed"`
+	Lane     int    `json:"lane"`
 }
 
 type mWorld struct {
@@ -725,7 +756,7 @@ func (w *mWorld) client(ci int, rng *rand.Rand, wg *sync.WaitGroup) {
 		}
 	}
 	cached := w.group.LeaderName()
-	colls := []string{"", "", "a", "b"}
+	colls := []string{"", "", "", "a"}
 	for i := 0; i < w.s.Ops; i++ {
 		if rng.Intn(5) == 0 {
 			flush(1 + rng.Intn(2))
@@ -741,7 +772,7 @@ func (w *mWorld) client(ci int, rng *rand.Rand, wg *sync.WaitGroup) {
 			WritableVolumeCount: uint32(1 + rng.Intn(2))}
 		movesBefore := w.group.Moves()
 		callT := tick()
-		resp, err := w.masters[mi].MS.Assign(context.Background(), req)
+		resp, err := safeAssign(w, mi, req)
 		retT := tick()
 		if err != nil || resp == nil || resp.Fid == "" {
 			if err != nil && strings.Contains(err.Error(), "Not current leader") {
@@ -786,15 +817,34 @@ func (w *mWorld) client(ci int, rng *rand.Rand, wg *sync.WaitGroup) {
 	flush(len(pending))
 }
 
-var stubPool []*lib.M13VolumeStub
+// safeAssign calls the real handler; a panic inside it (it runs on this goroutine)
+// is counted and reported as an error return: it is not a uniqueness violation.
+func safeAssign(w *mWorld, mi int, req *master_pb.AssignRequest) (resp *master_pb.AssignResponse, err error) {
+	defer func() {
+		if p := recover(); p != nil {
+			w.r.Count("master.assign_handler_panics", 1)
+			w.r.Note("master.assign_handler_panic_example", fmt.Sprint(p))
+			resp, err = nil, fmt.Errorf("panic in Assign: %v", p)
+		}
+	}()
+	return w.masters[mi].MS.Assign(context.Background(), req)
+}
 
-func getStubs(r *lib.Run, n int) []*lib.M13VolumeStub {
-	for len(stubPool) < n {
+var stubPools = map[int][]*lib.M13VolumeStub{}
+var stubPoolMu sync.Mutex
+
+// getStubs returns the n stub volume servers of a lane (they live for the whole
+// run: the repo's gRPC client caches connections by address, so a port is never
+// closed and reused).
+func getStubs(r *lib.Run, lane int, n int) []*lib.M13VolumeStub {
+	stubPoolMu.Lock()
+	defer stubPoolMu.Unlock()
+	for len(stubPools[lane]) < n {
 		s, err := lib.M13StartVolumeStub()
 		r.Must(err, "volume stub")
-		stubPool = append(stubPool, s)
+		stubPools[lane] = append(stubPools[lane], s)
 	}
-	return stubPool[:n]
+	return stubPools[lane][:n]
 }
 
 func runMasterHistory(r *lib.Run, s mSched) {
@@ -828,7 +878,7 @@ func runMasterHistory(r *lib.Run, s mSched) {
 		w.iss = append(w.iss, &issuer{id: i, name: name})
 	}
 	existing := make(map[uint32]bool)
-	stubs := getStubs(r, s.Servers)
+	stubs := getStubs(r, s.Lane, s.Servers)
 	for i, st := range stubs {
 		vs := &vserver{stub: st, vols: make(map[uint32]*srvVol), master: -1, rack: "r1", knows: w.group.LeaderName()}
 		w.servers = append(w.servers, vs)
@@ -873,7 +923,7 @@ func runMasterHistory(r *lib.Run, s mSched) {
 		select {
 		case <-done:
 			finished = true
-		case <-time.After(time.Duration(100+rng.Intn(900)) * time.Microsecond):
+		case <-time.After(time.Duration(300+rng.Intn(2500)) * time.Microsecond):
 		}
 		if finished {
 			break
@@ -930,7 +980,7 @@ func masterSchedules(r *lib.Run, n int) []mSched {
 	var out []mSched
 	for i := 0; i < n; i++ {
 		s := mSched{Index: i, Seq: []string{"memory", "etcd", "snowflake", "memory", "etcd"}[i%5], Masters: 1 + rng.Intn(3), Servers: 2 + rng.Intn(2),
-			Clients: 2 + rng.Intn(5), Ops: r.Pick(60, 120), RngSeed: rng.Int63()}
+			Clients: 2 + rng.Intn(4), Ops: r.Pick(30, 80), RngSeed: rng.Int63()}
 		if i%4 != 3 {
 			s.Masters = 2 + rng.Intn(2)
 		}
@@ -965,7 +1015,7 @@ func runGrowHistory(r *lib.Run, s gSched) {
 	rng := rand.New(rand.NewSource(s.RngSeed))
 	desc := map[string]interface{}{"part": "grow", "schedule": s}
 	group := lib.M13NewRaftGroup()
-	stubs := getStubs(r, 3)
+	stubs := getStubs(r, 0, 3)
 	var log allocLog
 	var frng = rand.New(rand.NewSource(s.RngSeed ^ 77))
 	var fmu sync.Mutex
@@ -1071,47 +1121,116 @@ func runGrowHistory(r *lib.Run, s gSched) {
 
 // ---------------------------------------------------------------------------
 
+func runLanes(n int, lanes int, f func(lane, i int)) {
+	var wg sync.WaitGroup
+	for l := 0; l < lanes; l++ {
+		wg.Add(1)
+		go func(l int) {
+			defer wg.Done()
+			for i := l; i < n; i += lanes {
+				f(l, i)
+			}
+		}(l)
+	}
+	wg.Wait()
+}
+
 func main() {
 	r := lib.Start("C13", "exploration")
-	r.SetRule("(a) one case = one concurrent schedule of 8-32 goroutines x NextFileId(count in {1,2,5,100,501,10000}) / SetMax(largest key actually written) against 1-3 instances of one sequencer type (memory, etcd over the fake etcd v2 endpoint, snowflake), with restarts, pre-existing volume content and late-joining volumes; (b) one case = one history of 1-3 real MasterServers (stub raft) with heartbeat streams of 2-3 modelled volume servers, 2-6 concurrent Assign clients writing a random subset now or later, and 0-4 leader moves; (c) one case = concurrent GrowByCountAndType on 1-2 topologies. distinct = distinct (part, type, schedule parameters); non-trivial = at least one assignment / allocation was returned")
+	r.SetRule("(a) one case = one concurrent schedule of 8-32 goroutines x NextFileId(count in {1,2,5,100,501,10000}) / SetMax(largest key actually written) against 1-3 instances of one sequencer type (memory: one leader token moved between instances; etcd over the fake etcd v2 endpoint: all instances live at once; snowflake), with restarts, pre-existing volume content and late-joining volumes; (b) one case = one history of 1-3 real MasterServers (stub raft) with heartbeat streams of 2-3 modelled volume servers, 2-5 concurrent Assign clients writing a random subset now or later, and 0-4 leader moves; (c) one case = concurrent GrowByCountAndType on 1-2 topologies. distinct = distinct (part, type, schedule parameters); non-trivial = at least one assignment / allocation was returned")
 	r.Assume("etcd is replaced by a harness fake of the v2 keys API (GET, PUT prevValue, PUT prevExist=false) that is linearizable (one mutex); a real etcd cluster is not available")
 	r.Assume("leader change is emulated by a stub raft.Server group with exactly one leader at any time whose Do() applies MaxVolumeIdCommand on every member (what a committed raft log gives a new leader); real raft is not exercised")
 	r.Assume("a volume server talks to a master only through SendHeartbeat; a master assigns into a volume only after a heartbeat told it the largest key in use (the sequencer-level schedules keep that order: SetMax before the first NextFileId of every instance generation)")
 	r.Assume("concurrent schedules are produced by the Go scheduler; stamps from one atomic counter decide 'before'; a replay re-runs the schedule, it cannot force the same interleaving")
+	r.Assume("data-race reports of the race detector are recorded in the evidence, not decisive for this property (DESIGN section 4)")
+
+	if os.Getenv("VERIF_CHILD_OUT") == "" {
+		// The real work runs in a child: the master code has data races of its own
+		// (recorded below) and a race-built process that saw one exits with 66.
+		self := os.Getenv("VERIF_SELF")
+		if self == "" {
+			self = os.Args[0]
+		}
+		env := []string{"GORACE=" + strings.TrimSpace(os.Getenv("GORACE")+" exitcode=0")}
+		var args []string
+		if r.Replay != "" {
+			args = []string{"--replay", r.Replay}
+		}
+		r.RunChild("run", self, env, args...)
+		if r.Replay != "" {
+			r.Nontrivial("replay1")
+			r.Nontrivial("replay2")
+			r.Finish(0)
+		}
+		c := func(n string) int64 { return r.Counter("run." + n) }
+		for _, typ := range []string{"memory", "etcd", "snowflake"} {
+			if c("seq."+typ+".assign") == 0 {
+				r.Inconclusive("no assignment observed for sequencer " + typ)
+			}
+		}
+		if c("master.assign_ok") == 0 || c("master.leader_moves") == 0 {
+			r.Inconclusive("master level: no successful assignment or no leader move observed")
+		}
+		if c("etcd.cas_conflicts") == 0 {
+			r.Inconclusive("no CAS conflict was seen at the fake etcd: the etcd schedules did not interleave")
+		}
+		if c("master.volume_allocations")+c("grow.allocations") == 0 {
+			r.Inconclusive("no volume id was handed out")
+		}
+		r.Note("concurrent_sequencer_schedules", c("seq.memory.schedules")+c("seq.etcd.schedules")+c("seq.snowflake.schedules"))
+		r.Note("cas_conflicts_seen_at_fake_etcd", c("etcd.cas_conflicts"))
+		r.Note("leader_moves", c("master.leader_moves")+c("seq.memory.leader_moves")+c("grow.leader_moves"))
+		races := lib.DedupRaces(lib.ParseRaceLogs(lib.RaceLogPath()))
+		var sigs []string
+		for k, v := range races {
+			sigs = append(sigs, fmt.Sprintf("%dx %s", len(v), k))
+		}
+		sort.Strings(sigs)
+		if len(sigs) > 25 {
+			sigs = sigs[:25]
+		}
+		r.Note("race_reports_recorded_not_decisive", sigs)
+		_ = os.Stdout.Sync()
+		r.Finish(20)
+	}
 
 	if r.Replay != "" {
 		var d struct {
 			History struct {
-				Part     string          `json:"part"`
-				Schedule map[string]interface{} `json:"schedule"`
+				Part string `json:"part"`
 			} `json:"history"`
 		}
 		r.Must(r.LoadReplay(&d), "load replay")
 		r.Must(replay(r, d.History.Part, r.Replay), "replay")
-		r.Nontrivial("replay1")
-		r.Nontrivial("replay2")
 		r.Finish(0)
 	}
 
-	nSeq, opsSeq := r.Pick(50, 1000), 2000
 	for _, typ := range []string{"memory", "etcd", "snowflake"} {
-		n, ops := nSeq, opsSeq
+		n, ops, lanes := r.Pick(50, 1000), 2000, 1
 		if typ == "etcd" {
-			n = r.Pick(50, 400)
+			// every batch fetch fsyncs sequencer.dat: fewer operations per schedule, 4 schedules at a time
+			n, ops, lanes = r.Pick(50, 400), r.Pick(800, 2000), 4
 		}
-		for i, s := range seqSchedules(r, typ, n, ops) {
-			runSeqSchedule(r, s)
+		t0 := time.Now()
+		scheds := seqSchedules(r, typ, n, ops)
+		runLanes(len(scheds), lanes, func(lane, i int) {
+			runSeqSchedule(r, scheds[i])
 			if i == 1 {
-				r.Sample(map[string]interface{}{"part": "sequencer", "schedule": s})
+				r.Sample(map[string]interface{}{"part": "sequencer", "schedule": scheds[i]})
 			}
-		}
+		})
+		r.Note("wall_ms.seq."+typ, time.Since(t0).Milliseconds())
 	}
-	for i, s := range masterSchedules(r, r.Pick(20, 500)) {
-		runMasterHistory(r, s)
+	tm := time.Now()
+	ms := masterSchedules(r, r.Pick(20, 500))
+	runLanes(len(ms), 4, func(lane, i int) {
+		ms[i].Lane = lane
+		runMasterHistory(r, ms[i])
 		if i == 0 {
-			r.Sample(map[string]interface{}{"part": "master", "schedule": s})
+			r.Sample(map[string]interface{}{"part": "master", "schedule": ms[i]})
 		}
-	}
+	})
+	r.Note("wall_ms.master", time.Since(tm).Milliseconds())
 	grng := r.SubRng("c13-grow")
 	for i := 0; i < r.Pick(12, 200); i++ {
 		s := gSched{Index: i, Topologies: 1 + i%2, Goroutines: 2 + grng.Intn(5), Calls: 4 + grng.Intn(5), FailPct: []int{0, 10, 30}[grng.Intn(3)], RngSeed: grng.Int63()}
@@ -1123,24 +1242,7 @@ func main() {
 			r.Sample(map[string]interface{}{"part": "grow", "schedule": s})
 		}
 	}
-
-	for _, typ := range []string{"memory", "etcd", "snowflake"} {
-		if r.Counter("seq."+typ+".assign") == 0 {
-			r.Inconclusive("no assignment observed for sequencer " + typ)
-		}
-	}
-	if r.Counter("master.assign_ok") == 0 || r.Counter("master.leader_moves") == 0 {
-		r.Inconclusive("master level: no successful assignment or no leader move observed")
-	}
-	if r.Counter("etcd.cas_conflicts") == 0 {
-		r.Inconclusive("no CAS conflict was seen at the fake etcd: the etcd schedules did not interleave")
-	}
-	if r.Counter("master.volume_allocations")+r.Counter("grow.allocations") == 0 {
-		r.Inconclusive("no volume id was handed out")
-	}
-	r.Note("concurrent_schedules", r.Counter("seq.memory.schedules")+r.Counter("seq.etcd.schedules")+r.Counter("seq.snowflake.schedules"))
-	_ = os.Stdout.Sync()
-	r.Finish(20)
+	r.Finish(0)
 }
 
 // replay re-runs the schedule of a replay file (20 times: interleavings vary).
